@@ -9,9 +9,9 @@ import (
 	"fmt"
 	"net"
 	"net/http"
-	"sync"
 	"sort"
 	"strings"
+	"sync"
 
 	"github.com/tmpim/casket"
 	"github.com/tmpim/casket/caskethttp/httpserver"
@@ -288,6 +288,48 @@ func main() {
 		}
 		return true
 	})
+	// equivalent spellings of one address in one Casketfile: either refused as duplicates, or the routing is the same
+	// whichever of the two is declared first
+	for _, pair := range [][2]string{{"a.test:8080", "a.test:8080/"}, {"a.test:8080", "a.test:08080"}, {"a.test:8080", "A.TEST:8080"}, {"a.test:8080/p", "a.test:8080/p"},
+		{":8080", "0.0.0.0:8080"}, {"*.test:8080", "*.TEST:8080/"}, {"http://a.test:8080", "a.test:8080"}} {
+		var outs [2]map[string]string
+		var errs [2]error
+		for o := 0; o < 2; o++ {
+			first, second := pair[o], pair[1-o]
+			cf := fmt.Sprintf("%s {\n\theader / X-Site s%d\n\tstatus 204 /\n}\n%s {\n\theader / X-Site s%d\n\tstatus 204 /\n}\n", first, o, second, 1-o)
+			l, err := kit.Load(cf, "/nonexistent/Casketfile")
+			rep.Eval(1)
+			errs[o] = err
+			if err != nil {
+				continue
+			}
+			outs[o] = map[string]string{}
+			for _, srv := range l.Servers {
+				for _, rh := range reqHosts {
+					for _, rp := range reqPaths {
+						rec, pv, _ := kit.ServeReq(srv, reqFor(rh, rp, 1))
+						rep.Eval(1)
+						outs[o][srv.Address()+" "+rh+" "+rp] = outcome(rec, pv, rh, 1)
+					}
+				}
+			}
+			l.Close()
+		}
+		switch {
+		case errs[0] != nil && errs[1] != nil:
+			rep.Class("equivalent-spellings/refused-as-duplicates")
+		case (errs[0] == nil) != (errs[1] == nil):
+			rep.Violation("C01/order-dependent/equivalent-spellings", fmt.Sprintf("sites %q and %q load in one declaration order and not in the other: %v / %v", pair[0], pair[1], errs[0], errs[1]), vcase{Casketfile: pair[0] + " + " + pair[1]})
+		default:
+			for k, v := range outs[0] {
+				if outs[1][k] != v {
+					rep.Violation("C01/order-dependent/equivalent-spellings", fmt.Sprintf("sites %q and %q: request %s is answered by %s when the first is declared first and by %s otherwise", pair[0], pair[1], k, v, outs[1][k]), vcase{Casketfile: pair[0] + " + " + pair[1]})
+					break
+				}
+			}
+			rep.Class("equivalent-spellings/accepted")
+		}
+	}
 	rep.Finish()
 }
 
